@@ -230,7 +230,15 @@ impl<const N: usize> BigInt<N> {
     /// Find the number of bits in the binary decomposition of `self`.
     #[doc(hidden)]
     pub const fn const_num_bits(self) -> u32 {
-        ((N - 1) * 64) as u32 + (64 - self.0[N - 1].leading_zeros())
+        // the most significant non-zero limb determines the bit length
+        let mut i = N;
+        while i > 0 {
+            if self.0[i - 1] != 0 {
+                return ((i - 1) * 64) as u32 + (64 - self.0[i - 1].leading_zeros());
+            }
+            i -= 1;
+        }
+        0
     }
 
     #[inline]
